@@ -130,6 +130,15 @@ void make_case(const uint32_t *mat, int n, uint32_t side, int maxc) {
 #endif
 #if defined(CHECK_C03)
   uint64_t hist_top = P.POS_history[HC - 1];
+  /* between a move and its take-back a search makes and unmakes other moves: by induction those restore every piece list
+     as a SET but may reorder it (remove_piece swaps with the last entry), so the take-back must work from any order */
+  for (int pc = 1; pc < 13; pc++) {
+    int32_t cnt = P.POS_piece_count[pc];
+    if (cnt >= 2 && cnt <= ri_maxc) {
+      uint32_t i = nondet_u32(), j = nondet_u32(); __CPROVER_assume(i < (uint32_t)cnt && j < (uint32_t)cnt && i < NPMAX && j < NPMAX);
+      uint32_t t = P.POS_piece_position[pc][i]; P.POS_piece_position[pc][i] = P.POS_piece_position[pc][j]; P.POS_piece_position[pc][j] = t;
+    }
+  }
   _ZN6engine8Position9undo_moveEjj(&P, mv, mi);
   { uint64_t diff = 0; for (int s = 0; s < 64; s++) if (P.POS_board[s] != S.b[s]) diff |= 1ULL << s; ce_got = diff; PROP(diff == 0, "C03 board restored by undo"); }
   PROP(P.POS_current_side == S.side && P.POS_castling_rights == S.cr && P.POS_enpassant_square == S.ep, "C03 side, rights and en-passant square restored");
